@@ -120,7 +120,8 @@ def run_case(case, budget=140):
             fired_calls.append([t, n])
             return super().fired(t, n)
 
-    proc = Probe()
+    inst = case.get('inst')
+    proc = Probe(inst) if inst is not None else Probe()
     proc.setMaximumTime(case['maxtime'])
     cls = StochasticDynamics if case['dynamics'] == 'stochastic' else SynchronousDynamics
     dyn = cls(proc, g)
@@ -163,8 +164,34 @@ def run_case(case, budget=140):
         snapshot('setup')
     proc.setUp = setup
 
-    params = {PulseCoupledOscillator.PERIOD: case['period'], PulseCoupledOscillator.B: case['b'],
-              PulseCoupledOscillator.COUPLING: case['coupling']}
+    own = {PulseCoupledOscillator.PERIOD: case['period'], PulseCoupledOscillator.B: case['b'],
+           PulseCoupledOscillator.COUPLING: case['coupling']}
+    if inst is None:
+        params = dict(own)
+    else:
+        # a named instance reads its own (decorated) parameters; the plain names carry other values for somebody else
+        params = dict(case.get('decoy') or {})
+        proc.setParameters(params, own)
+    pre = None
+    if case.get('prerun'):
+        # an earlier run on the SAME objects (other initial states): its results must stay what they were
+        # when it returned, whatever happens afterwards
+        pre_taps = []
+        dyn.eventFired = lambda t, p, name, e: pre_taps.append([t, e])
+        install(Oracle(seed=0, script={'random': list(case['prerun'])}, strict=True))
+        try:
+            prc = dyn.set(params).run(fatal=True)
+            pres = prc.get(epyc.Experiment.RESULTS, {})
+            key = proc.decoratedNameInInstance(PulseCoupledOscillator.FIRING_TIMES)
+            keyn = proc.decoratedNameInInstance(PulseCoupledOscillator.FIRING_NODES)
+            pre = {'taps': pre_taps, 'times_obj': pres.get(key), 'nodes_obj': pres.get(keyn),
+                   'times_then': list(pres.get(key) or []), 'nodes_then': list(pres.get(keyn) or [])}
+        except Exception as e:
+            pre = {'exception': type(e).__name__ + ': ' + str(e)}
+        finally:
+            uninstall()
+        del calls[:], orders[:], fired_calls[:], snaps[:], taps[:]
+        dyn.eventFired = tap
     install(orc)
     exc = None
     rc = None
@@ -177,8 +204,15 @@ def run_case(case, budget=140):
     finally:
         uninstall()
     res = (rc or {}).get(epyc.Experiment.RESULTS, {}) if rc else {}
+    if inst is not None:
+        res = {proc.undecoratedName(k) if isinstance(k, str) else k: v for k, v in res.items()}
     md = (rc or {}).get(epyc.Experiment.METADATA, {}) if rc else {}
+    earlier = None
+    if pre is not None and 'exception' not in pre:
+        earlier = {'taps': pre['taps'], 'times_then': pre['times_then'], 'nodes_then': pre['nodes_then'],
+                   'times_now': list(pre['times_obj'] or []), 'nodes_now': list(pre['nodes_obj'] or [])}
     obs = {
+        'earlier': earlier, 'earlier_exception': (pre or {}).get('exception'),
         'exception': exc, 'calls': calls, 'orders': orders, 'fired_calls': fired_calls, 'snaps': snaps, 'taps': taps,
         'randoms_used': len(orc.values('random')),
         'firing_times': res.get(PulseCoupledOscillator.FIRING_TIMES), 'firing_nodes': res.get(PulseCoupledOscillator.FIRING_NODES),
@@ -288,6 +322,17 @@ def direct(case, obs):
     if obs['exception'] is not None:
         bad('exception', exception=obs['exception'])
         return out
+    if obs.get('earlier_exception'):
+        bad('exception-in-earlier-run', exception=obs['earlier_exception'])
+    er = obs.get('earlier')
+    if er:
+        # the log an earlier run on the same objects reported: one entry per FIRED tap of THAT run, then and now
+        tt = [x[0] for x in er['taps']]
+        tn = [x[1] for x in er['taps']]
+        if er['times_then'] != tt or er['nodes_then'] != tn:
+            bad('firing-log-not-the-taps:earlier-run', log=er['times_then'], taps=tt)
+        elif er['times_now'] != tt or er['nodes_now'] != tn:
+            bad('results-of-an-earlier-run-changed-by-a-later-run', reported=tt[:8], now=er['times_now'][:8])
     period = case['period']
     nodes = make_graph(case['graph']).nodes()
     nn = len(nodes)
@@ -385,6 +430,13 @@ def gen_case(rnd, tier='quick'):
             states.append(rnd.randrange(0, 1 << 20) / float(1 << 20))
     case = {'graph': graph, 'period': period, 'b': rnd.choice(BS), 'coupling': rnd.choice(COUPLINGS),
             'maxtime': maxtime, 'dynamics': dynamics, 'states': states}
+    if rnd.random() < 0.3:
+        case['inst'] = rnd.choice(['fireflies', 'a', 'x.1'])
+        if rnd.random() < 0.6:
+            from epydemic import PulseCoupledOscillator as PCO
+            case['decoy'] = {PCO.PERIOD: rnd.choice([0.25, 3.0, 1.0]), PCO.B: rnd.choice([0.5, 1.0, 4.0]), PCO.COUPLING: rnd.choice([0.0, 1.0, 0.3])}
+    if rnd.random() < 0.25:
+        case['prerun'] = [rnd.randrange(0, 1 << 20) / float(1 << 20) for _ in range(n)]
     if rnd.random() < 0.12:
         # synchronised groups on a complete network with a period off the 1e-5 grid (F13)
         g = gen_graph(rnd, 'complete', 2, 5)
